@@ -114,6 +114,35 @@ theorem mined_seal_verifies (Hs : Hashes) (version number : Nat) (difficulty : I
   · simp only [hv, if_false, sealSeed] at hs
     exact Or.inr ⟨by rcases hv' with h | h; exact absurd h hv; exact h, hs.1, hs.2⟩
 
+/-- **every seal `Seal` returns passes the check, for all thread counts and all schedules**: n sealer threads, each with its
+    own start nonce and its own seed buffer, interleaved arbitrarily at the granularity write-nonce / hash / compare, first hit
+    wins — whatever (nonce, digest) is returned verifies (argon2id versions; `hnn` as in `mined_seal_verifies`). -/
+theorem mined_seal_verifies_any_schedule (Hs : Hashes) (version number : Nat) (difficulty : Int) (hnn : Bytes)
+    (starts schedule : List Nat) (nonce : Nat) (digest : Bytes)
+    (hv : version = 2 ∨ version = 3 ∨ version = 4) (hn : number % two64 / 30000 < 2048) (hd : 0 < difficulty)
+    (hm : sealRun Gen.powParams Hs version difficulty hnn false starts schedule = some (nonce, digest)) :
+    verifySeal Gen.powParams Hs { number := number, difficulty := difficulty, mixDigest := digest, nonce := nonce, version := version, hnn := hnn } = none := by
+  rw [verifySeal_iff]
+  unfold sealRun at hm
+  have inv := sealRun_inv Hs version hnn _ schedule _ (sealInit_inv Hs version hnn ((Gen.powParams.maxUint256 : Int) / difficulty) starts)
+  obtain ⟨hdg, hle⟩ := inv.found nonce digest hm
+  rw [gen_pow_constants] at hle
+  show SealValidP Spec.powParams Hs _
+  exact ⟨hn, hd, Or.inr ⟨hv, hdg, by simpa [sealSeed] using hle⟩⟩
+
+/-- private buffers are what makes this true: if the threads write their nonce into ONE shared buffer, there is a two-thread
+    schedule (A writes, B writes, A hashes, A compares) in which A reports its own nonce for a hash computed over B's nonce,
+    and the block `Seal` returns is rejected by `VerifySeal`.  (Toy hash: only nonce 1 meets the target.) -/
+theorem shared_seed_buffer_witness :
+    let Hs : Hashes := { keccak := id, vh := fun _ d => if d.drop 32 = le64 1 then [0] else [255], ethash := fun _ _ _ => ([], []) }
+    let d : Int := 1157920892373161954235709850086879078532699846656405640394575840079131296399   -- target = 100
+    sealRun Gen.powParams Hs 2 d (List.replicate 32 7) true [0, 1] [0, 1, 0, 0] = some (0, zeroDigest) ∧
+    verifySeal Gen.powParams Hs { number := 5, difficulty := d, mixDigest := zeroDigest, nonce := 0, version := 2, hnn := List.replicate 32 7 } = some .invalidPoW ∧
+    -- with private buffers the same schedule returns nothing yet, and a longer one returns thread B's nonce 1, which verifies
+    sealRun Gen.powParams Hs 2 d (List.replicate 32 7) false [0, 1] [0, 1, 0, 0] = none ∧
+    sealRun Gen.powParams Hs 2 d (List.replicate 32 7) false [0, 1] [0, 1, 0, 0, 1, 1] = some (1, zeroDigest) := by
+  decide
+
 /-- the precondition on the seal-free hash matters only through version 3: `HashNoNonce` hashes with argon2id-B when the
     header version is 3 and with Keccak-256 for every other version (as written), so a block handed to `Seal` with an unset
     or stale header version at an HF8 height is mined over a different pre-image than the verifier recomputes. -/
